@@ -441,7 +441,6 @@ Proof.
   induction f as [|f IH]; intros s k b H1 Hf.
   - lia.
   - cbn [scan_plain_scalar_src_w2]. unfold peek. rewrite !nth_error_skipn.
-    replace (k + 1)%nat with (S k) by lia.
     destruct (skipn k (s_rest s)) as [|c l'] eqn:E; [reflexivity|].
     rewrite (skipn_S_cons _ _ _ _ E). cbn [hd_error bind plain_len]. unfold_tabs.
     destruct (mem_N c [0; 32; 9; 13; 10; 133; 8232; 8233]); cbn [bind]; [f_equal; lia|].
